@@ -58,6 +58,7 @@ def check_C15(ctx):
     ctx.trusted += M1_TRUST
     drv.readonly_C15(ctx, proof_ok=ok)
     drv.readonly_model_tie(ctx)
+    drv.readonly_unindexable_C15(ctx)
 
 
 
@@ -195,6 +196,26 @@ def fs_property(ctx, pid, module, theorems, oracle, classify=None, needs_ref=Fal
 def check_C01(ctx):
     import oracles
     fs_property(ctx, "C01", "C01", ["C01_rebuild_ignores_index", "C01_rebuild_prefix_stable", "C01_rows_rebuilt_are_live_rows", "C01_excluded_corners", "C01_demo", "C01_rows_rebuilt_are_live_rows_any_config", "C01_run_any_config", "C01_rebuild_any_config"], oracles.c01, classify=classify_update_unindexed)
+    matrix_for(ctx, "C01", oracles.c01, "the visible tree of the running instance (names, attributes, contents) equals the tree of an index rebuilt from the tape")
+
+
+def matrix_for(ctx, pid, oracle, what):
+    """every pipeline configuration (the properties quantify over them): the property's oracle applied to the configuration-matrix
+    histories (every codec, encryption and signature format, both write caches; names that end in codec suffixes; truncation to nothing)"""
+    import crypto
+    mdata = crypto.matrix_stream(ctx)
+    nfail = 0
+    for d in mdata:
+        if d["rc"] != 0:
+            continue          # judged by C03
+        for f in oracle(d["h"], d["res"]):
+            nfail += 1
+            if nfail <= 3:
+                ctx.violation(f["kind"], "%s at call %d (%s) under %s" % (f["kind"], f["i"], d["h"]["calls"][f["i"]]["op"], json.dumps(d["h"]["config"])),
+                              dict(history=dict(config=d["h"]["config"], blobs=d["h"]["blobs"], calls=d["h"]["calls"][:f["i"] + 1], obs=d["h"].get("obs")),
+                                   failing_call=f["i"], detail=f["detail"]))
+    ctx.oblige("oracle: under every pipeline configuration of the matrix (%d configurations) %s" % (len(mdata), what), nfail == 0, "%d failures" % nfail)
+    ctx.coverage.update(matrix_configs=len(mdata))
 
 
 def check_C02(ctx):
@@ -547,7 +568,7 @@ def check_C11(ctx):
     ctx.trusted += M2_TRUST + M1_TRUST + ["the step from per-method atomicity (M2 monitor Atomic) to the abstract machine of Proofs/Conc.v -- that a method's critical section, given exclusive access to the shared state, acts as M1's step -- rests on the sequential M1 correspondence; it is re-checked on the linearizations the concurrent harness finds",
                                         "data-race freedom is tested with the Go race detector on the concurrent runs, not proved; the Go scheduler is perturbed by yields and sleeps at the drive, index-store and write-cache seams (a sample of schedules)",
                                         "the linearizability search uses the implementation run sequentially as the executable specification (tied to M1 by the differential runs of C01/C02) and is bounded to 120 candidate orders per run"]
-    coq_props(ctx, "C11", ["C11_lock_order", "C11_lock_order_sem", "order_link", "C11_atomic", "C11_atomic_sem", "C11_prelock_reads_exact", "C11_single_section_exact",
+    coq_props(ctx, "C11", ["C11_lock_order", "C11_lock_order_sem", "order_link", "C11_atomic", "C11_atomic_sem", "C11_prelock_reads_exact", "C11_single_section_exact", "C11_index_store_single_connection",
                            "C11_monitors_nonvacuous", "C11_no_deadlock_among_locks", "C11_m1_linearizable", "C11_m1_final_is_sequential", "C11_stream_refuted"])
     known = {f["id"]: f for f in load_findings("C11")}
     data = conc.conc_stream(ctx)
